@@ -2,6 +2,7 @@ import PercevalModel.Proto
 import PercevalModel.SimProto
 import PercevalModel.Model.C09
 import PercevalModel.Model.C09Run
+import PercevalModel.Model.C09Conv
 
 open Lean PM PM.Proto PM.C09
 
@@ -304,6 +305,36 @@ def handleReq (j : Json) : Except String Json := do
     | .error "domain" => throw "domain"
     | .error "unreachable" => throw "unreachable"
     | .error e => return Json.mkObj [("raise", .str e)]
+  | "sampledist" | "p2s" | "sc2s" =>
+    let vac ← (← arrOf j "vac").toList.mapM fun v => v.getBool?
+    let draws ← natList (← j.getObjVal? "draws")
+    let r ← match op with
+      | "sampledist" => do
+        let present ← (← arrOf j "present").toList.mapM fun v => v.getBool?
+        let ws ← ratList (← j.getObjVal? "weights")
+        if ws.length ≠ present.length ∨ vac.length ≠ present.length ∨ ws.any (· < 0) then throw "domain"
+        pure (sampleDist vac (← boolOf j "non_null") present ws (← natOf j "count") draws)
+      | "p2s" => do
+        let ps ← ratList (← j.getObjVal? "probs")
+        if vac.length ≠ ps.length ∨ ps.any (· < 0) then throw "domain"
+        pure (probsToSamples vac ps (← optNat j "count") (← optNat j "max_shots") (← optNat j "max_samples") draws)
+      | _ => do
+        let cs ← intList (← j.getObjVal? "counts")
+        if vac.length ≠ cs.length then throw "domain"
+        pure (sampleCountToSamples vac cs (← optNat j "count") (← optNat j "max_shots") (← optNat j "max_samples") draws)
+    match r with
+    | .ok l => return Json.mkObj [("ok", toJson l)]
+    | .raise e => return Json.mkObj [("raise", .str e)]
+    | .bad w => return Json.mkObj [("bad", .str w)]
+  | "s2p" =>
+    let n ← natOf j "n"
+    let samples ← natList (← j.getObjVal? "samples")
+    if samples.any (fun i => n ≤ i) then throw "domain"
+    match samplesToProbs n samples with
+    | .error e => return Json.mkObj [("raise", .str e)]
+    | .ok ps => return Json.mkObj [("probs", Json.arr (ps.map fun
+        | none => Json.null
+        | some q => ratToJson q).toArray)]
   | "provconst" =>
     let n ← natOf j "n"
     return Json.mkObj [("ceilTenth", toJson ((List.range (n + 1)).map ceilTenth)),
